@@ -1,10 +1,11 @@
 (* C13 — marker normal forms and marker text.
-   The normal-form search (cnf/dnf) is level 2 and not yet modelled; every cnf/dnf/intersect/union/invert result of
-   the implementation is printed, re-parsed (poetry-core and the reference parser) and compared on the environment
-   grid by the oracle, and the model evaluates and prints the same structures (byte-identical text required).
-   Proved: the two facts the text/structure relation rests on. *)
+   Proved: the two facts the text/structure relation rests on, and (level 2, partial — relative to the premises of
+   Proofs/MarkerAlgProofs.v) that cnf and dnf keep the truth table, as do MultiMarker.of / MarkerUnion.of.
+   Every cnf/dnf/intersect/union/invert result of the implementation is printed, re-parsed (poetry-core and the
+   reference parser) and compared on the environment grid by the oracle, and the model computes the same structures
+   (byte-identical text required). *)
 From Coq Require Import List Bool NArith String.
-From PC Require Import Base.Result Model.Generic Model.Marker Proofs.MarkerProofs.
+From PC Require Import Base.Result Model.Generic Model.Marker Model.MarkerAlg Proofs.MarkerProofs Proofs.MarkerAlgProofs.
 Import ListNotations.
 
 (* evaluation depends on the Boolean structure only *)
@@ -17,3 +18,15 @@ Theorem C13_rebuild : forall E,
   forall l, beval E (mk_union_marker l) = existsb (beval E) l /\ beval E (mk_multi_marker l) = forallb (beval E) l.
 Proof. intros E H l. split; [apply flatten_union_sound | apply flatten_multi_sound]; exact H. Qed.
 Print Assumptions C13_rebuild.
+
+Theorem C13_normal_forms_partial : forall E, key_sound E -> key_symmetric -> merge_sound E ->
+  forall fuel st m,
+    (forall r, cnf fuel st m = Ok r -> beval E r = beval E m) /\ (forall r, dnf fuel st m = Ok r -> beval E r = beval E m).
+Proof. exact normal_forms_sound. Qed.
+Print Assumptions C13_normal_forms_partial.
+Theorem C13_of_partial : forall E, key_sound E -> key_symmetric -> merge_sound E ->
+  forall fuel st ms,
+    (forall r, multi_of fuel st ms = Ok r -> beval E r = forallb (beval E) ms) /\
+    (forall r, union_of_m fuel st ms = Ok r -> beval E r = existsb (beval E) ms).
+Proof. exact of_sound. Qed.
+Print Assumptions C13_of_partial.
